@@ -163,7 +163,7 @@ impl SyncWorld {
             no_double_delete: false,
             deleted: Default::default(),
             excluded: 0,
-            recompute_after_stream: true,
+            recompute_after_stream: false, // (true was a workaround for the early recomputation request of mutation_stream, repaired)
             ordered_reference_changes: false,
             ref_version: Default::default(),
             last_write: Default::default(),
